@@ -6,7 +6,7 @@ different geometry (T = 2, 4, 3), MultiCrossBlock, Repeat, Merge and Nest over t
 that reaches it (fresh world, history replayed); its canonical form is the multiset of constructed items plus every shared
 constraint's recorded geometry.  ALL histories up to the depth bound are executed (no deduplication of the executions;
 the canonical forms are only counted), so a too-coarse state hash cannot hide anything.
-Invariant, in every state and for every block constructed so far: the exhausted IterateSATGen set and the
+Invariant, in every state and for every block constructed so far: the complete solution set of the compiled formula and the
 sample_mismatch_experiment verdicts on a fixed probe list equal those of the same block built alone from fresh, unshared objects.
 """
 import itertools
@@ -16,10 +16,11 @@ from vt import core, dsw, gen, build as B
 
 PROP = 'C18'
 RULE = ('worlds = one shared constraint spec each (AtMostKInARow, AtLeastKInARow, ExactlyK, ExactlyKInARow, Pin first/last, Exclude, Sequential, '
-        'two constraints together); menu of 7 constructions; all histories of depth <= 3 (thorough 4); states = distinct canonical '
+        'two constraints together); menu of 11 constructions; all histories of depth <= 3 (thorough 4); states = distinct canonical '
         'states, transitions = constructions executed; non-trivial = the history builds >= 2 blocks of different geometry that share '
         'a constraint object.')
-ASSUMPTIONS = ['IterateSATGen exhaustion and the mismatch checker are the observations compared (their own correctness is C02/C17)']
+ASSUMPTIONS = ['the observations compared are all models of the compiled formula (projected, decoded by the library) and the mismatch checker verdicts; '
+               'that IterateSATGen returns exactly those models is C02/C27']
 BUDGET_S = {'quick': 120, 'thorough': 900}
 DEPTH = {'quick': 3, 'thorough': 4}
 
@@ -64,6 +65,14 @@ def menu(cs):
          'alignment': 'equal preamble'},
         {'op': 'nest', 'outer': gen.cross(['C'], ['C']), 'inner': cb(['A', 'B'], ['A']), 'constraints': []},
         cb(['A', 'B', 'TA'], ['TA']),                            # preamble, T = 3
+        # the shared constraint given to the COMBINATOR (whole-sequence scope)
+        {'op': 'repeat', 'block': cb(['A', 'B'], ['A'], []), 'constraints': cs + [{'c': 'MinimumTrials', 'k': 4}]},
+        {'op': 'nest', 'outer': gen.cross(['C'], ['C']), 'inner': cb(['A', 'B'], ['A'], []), 'constraints': [c for c in cs if c['c'] != 'Exclude']},
+        # ONE outer block object (with a MinimumTrials of its own) used by several combinators
+        {'op': 'nest', 'outer': {'op': 'shared', 'name': 'outer', 'block': gen.cross(['C'], ['C'], [{'c': 'MinimumTrials', 'k': 3}])},
+         'inner': cb(['A', 'B'], ['A']), 'constraints': []},
+        {'op': 'repeat', 'block': {'op': 'shared', 'name': 'outer', 'block': gen.cross(['C'], ['C'], [{'c': 'MinimumTrials', 'k': 3}])},
+         'constraints': []},
     ]
     return m
 
@@ -81,11 +90,19 @@ _FRESH = {}
 
 
 def observe(block, design, probes=None):
-    exps, e, out = dsw.synth(block, 400, 'sat')
-    if e is not None:
-        return ('raises', type(e).__name__), None
+    """The block's solution space as the set of models of its compiled formula projected onto the trial-sequence variables
+    (same design => same variable numbering in a shared and a fresh build), decoded through the library's own decoder.
+    Much cheaper than driving IterateSATGen to exhaustion, and it is the same formula IterateSATGen solves."""
+    from vt import sat
     try:
-        tup = sorted(dsw.tuples(exps, design))
+        clauses, support, failed, cnf = dsw.compiled(block)
+    except Exception as e:
+        return ('raises', type(e).__name__), None
+    if failed:
+        return ('ok', []), []
+    models = sat.all_models(clauses, over=list(range(1, support + 1)), limit=2000)
+    try:
+        tup = sorted(dsw.tuples([dsw.decode_solution(block, list(m)) for m in models], design))
     except (KeyError, IndexError) as e2:
         return ('malformed', type(e2).__name__), None
     return ('ok', tup), tup
@@ -138,6 +155,9 @@ def fresh_observation(world, i):
 def cons_state(cons_cache):
     st = {}
     for k, c in sorted(cons_cache.items()):
+        if k.startswith('#block:'):
+            st[k] = [type(x).__name__ + ':' + repr(getattr(x, 'within_block', getattr(x, 'trials', None))) for x in getattr(c, 'orig_constraints', [])]
+            continue
         wb = getattr(c, 'within_block', None)
         st[k] = repr(wb)
     return st
